@@ -163,7 +163,7 @@ def run(ctx):
     docs, origin = [], []
     order = list(range(len(behaviours)))
     ctx.rng.shuffle(order)
-    budget = ctx.pick(2200, len(order))
+    budget = ctx.pick(2200, 100000)
     # every (outcome, defect / payload class) combination first
     firsts, seen = [], set()
     for i in order:
@@ -173,7 +173,8 @@ def run(ctx):
         if key not in seen:
             seen.add(key)
             firsts.append(i)
-    chosen = firsts + [i for i in order if i not in set(firsts)][:max(0, budget - len(firsts))]
+    fs = set(firsts)
+    chosen = firsts + [i for i in order if i not in fs][:max(0, budget - len(firsts))]
     for i in chosen:
         for d in certload.docs_from_behaviour(behaviours[i], ctx.rng):
             docs.append(d)
@@ -182,7 +183,7 @@ def run(ctx):
     res.coverage["behaviours_replayed"] = len(chosen)
     res.coverage["documents_from_behaviours"] = n_model
     # 4. binding B: random documents up to 12 elements ---------------------------------------------
-    n_rand = ctx.pick(1500, 60000)
+    n_rand = ctx.pick(1500, 40000)
     docs += [certload.random_doc(ctx.rng) for _ in range(n_rand)]
     res.coverage["random_documents"] = n_rand
     directed = certload.directed_docs(ctx.rng)
@@ -208,6 +209,7 @@ def run(ctx):
     tally = {"error": 0, "loaded": 0, "loaded_with_valid_verdict": 0, "round_trips": 0, "max_elements": 0,
              "loaded_with_duplicates": 0}
     classes = set()
+    rejected = []
     for k, (d, t) in enumerate(zip(docs, obs)):
         v = verdicts[k + 1]
         classes.add(dclass(d))
@@ -226,16 +228,46 @@ def run(ctx):
         if v["ok"]:
             accepted += 1
         else:
-            res.violation(signature(v["clause"], d, t),
-                          "%s document (%s): %s fails - first load: %s %s; save: %s; second load: %s %s %s; "
-                          "verdicts before=%s after=%s" % (
-                              d["flavour"], "; ".join(s for s in t.get("sub", []) if s) or "plain payloads",
-                              v["clause"], o1["outcome"], o1["err"], t["save"], t["o2"]["outcome"],
-                              t["o2"]["val"], t["o2"]["err"], json.dumps(o1["res"])[:300],
-                              json.dumps(t["o2"]["res"])[:300]),
-                          {"doc": d, "observed": {"o1": o1, "save": t["save"], "o2": t["o2"]}, "verdict": v})
+            rejected.append((len(d["items"]), k))
+    # the smallest document of every signature becomes its replay file
+    for _, k in sorted(rejected):
+        d, t, v = docs[k], obs[k], verdicts[k + 1]
+        o1 = t["o1"]
+        res.violation(signature(v["clause"], d, t),
+                      "%s document (%s): %s fails - first load: %s %s; save: %s; second load: %s %s %s; "
+                      "verdicts before=%s after=%s" % (
+                          d["flavour"], "; ".join(s for s in t.get("sub", []) if s) or "plain payloads",
+                          v["clause"], o1["outcome"], o1["err"], t["save"], t["o2"]["outcome"],
+                          t["o2"]["val"], t["o2"]["err"], json.dumps(o1["res"])[:300],
+                          json.dumps(t["o2"]["res"])[:300]),
+                      {"doc": d, "observed": {"o1": o1, "save": t["save"], "o2": t["o2"]}, "verdict": v})
     res.add_validation(stats, accepted)
     res.coverage["observed"] = tally
+    # the trace specification must reject doctored observations (self-test of the judge)
+    doctored = []
+    for k, t in enumerate(obs):
+        if len(doctored) >= 40:
+            break
+        if verdicts[k + 1]["ok"] and t["o1"]["outcome"] == "loaded" and t["o1"]["res"] and t["o1"]["graph"]:
+            p = json.loads(json.dumps(payload_of(len(doctored) + 1, t)))
+            how = len(doctored) % 4
+            if how == 0:
+                p["o2"]["res"][0]["valid"] = not p["o2"]["res"][0]["valid"]         # round trip differs
+            elif how == 1:
+                p["o1"]["res"] = p["o1"]["res"][1:]                                    # a target without verdict
+            elif how == 2:
+                tgt = p["o1"]["targets"][0]                                            # a cycle through the target
+                for g in p["o1"]["graph"]:
+                    if g["name"] == tgt:
+                        g["by"] = tgt
+            else:
+                p["o1"]["val"] = "hang"
+            doctored.append(p)
+    dv, _ = tlc.validate("TraceCertLoad", "Trace_CertLoad.cfg", doctored, shards=1)
+    slipped = [i for i, v in dv.items() if v["ok"]]
+    if slipped or not doctored:
+        raise core.MachineryError("TraceCertLoad accepted %d of %d doctored observations" % (len(slipped), len(doctored)))
+    res.coverage["doctored_traces_rejected"] = len(doctored)
     res.coverage["distinct_abstract_classes_hit"] = len(classes)
     if tally["loaded_with_valid_verdict"] == 0 or tally["error"] == 0 or tally["loaded_with_duplicates"] == 0:
         raise core.MachineryError("vacuity: real loaders never showed one of error / valid verdict / duplicates: %s" % tally)
